@@ -307,4 +307,8 @@ class Parser(object):
         # type: (str) -> ProgramNode
         """ Parses the source text into a program structure """
 
+        # Each source text starts at line 1 as an MPilot (not EEMS 2.0) file, whatever this parser parsed before
+        self.lexer.lineno = 1
+        self.eems_v2 = False
+
         return self.parser.parse(source, lexer=self.lexer, tracking=True)
